@@ -692,7 +692,7 @@ def value_plumbing(fns):
             if not mm: raise TranslateError("yrx_rule_iter_metadata: `match value {` not found")
             j = close_of(body, mm.end() - 1)
             arms = body[mm.end():j]
-            for am in re.finditer(r"MetaValue::([A-Za-z]+)\(v\)\s*=>", arms):
+            for am in re.finditer(r"MetaValue::([A-Za-z]+)\(v\)\s*(?:if\s+([^=]+?))?\s*=>", arms):
                 k = am.end()
                 while arms[k] in " \n\t": k += 1
                 e = close_of(arms, k)
@@ -708,7 +708,9 @@ def value_plumbing(fns):
                     sm = re.search(r"string\s*=\s*([^;]+);", arm)
                     if not sm: raise TranslateError("yrx_rule_iter_metadata: `string = ..;` not found in the String arm")
                     payload = nows(sm.group(1)) + ".as_ptr()"
-                meta.append((am.group(1), tm.group(1), vm.group(1), payload))
+                meta.append((am.group(1), tm.group(1), vm.group(1), payload, nows(am.group(2) or "")))
+            if len(re.findall(r"MetaValue::", arms)) != len(meta):
+                raise TranslateError("yrx_rule_iter_metadata: an arm of the metadata match was not understood")
             if len(meta) < 2: raise TranslateError("yrx_rule_iter_metadata: MetaValue arms not found")
         gm = re.match(r"yrx_(scanner_set|compiler_define)_global_([a-z]+)$", fn.name)
         if gm:
@@ -882,8 +884,10 @@ def main():
     L.append("Definition callback_loops : list (string * string * string * string) :=\n  [" + ";\n   ".join(f"({q(a)}, {q(b)}, {q(c)}, {q(d)})" for a, b, c, d in loops) + "].")
     L.append("(* `let x = CString::new(<expr>).unwrap();` of exported functions: (function, variable, expression) *)")
     L.append("Definition c_strings : list (string * string * string) :=\n  [" + ";\n   ".join(f"({q(a)}, {q(b)}, {q(c)})" for a, b, c in cstrs) + "].")
-    L.append("(* yrx_rule_iter_metadata: (MetaValue variant, YRX_METADATA_TYPE tag, YRX_METADATA_VALUE member, payload) *)")
-    L.append("Definition meta_arms : list (string * string * string * string) :=\n  [" + ";\n   ".join(f"({q(a)}, {q(b)}, {q(c)}, {q(d)})" for a, b, c, d in meta) + "].")
+    L.append("(* yrx_rule_iter_metadata, arms without a guard: (MetaValue variant, YRX_METADATA_TYPE tag, YRX_METADATA_VALUE member, payload) *)")
+    L.append("Definition meta_arms : list (string * string * string * string) :=\n  [" + ";\n   ".join(f"({q(a)}, {q(b)}, {q(c)}, {q(d)})" for a, b, c, d, g in meta if not g) + "].")
+    L.append("(* arms with an `if` guard, tried before the others: (variant, guard, tag, member, payload) *)")
+    L.append("Definition meta_guarded_arms : list (string * string * string * string * string) :=\n  [" + ";\n   ".join(f"({q(a)}, {q(g)}, {q(b)}, {q(c)}, {q(d)})" for a, b, c, d, g in meta if g) + "].")
     L.append("Definition metadata_type_tags : list string := [" + "; ".join(q(v) for v in enum_variants(src("capi/src/metadata.rs"), "YRX_METADATA_TYPE", "enum YRX_METADATA_TYPE")) + "].")
     L.append("(* enum MetaValue of lib/src/models.rs *)")
     L.append("Definition metavalue_variants : list string := [" + "; ".join(q(v) for v in enum_variants(src("lib/src/models.rs"), "MetaValue", "enum MetaValue")) + "].")
